@@ -394,7 +394,14 @@ def run_kron(ck, thorough):
         elif malformed == 'size':
             loc = tuple(rng.sample(range(n), rng.randint(1, min(2, n))))
             oprad = tuple(rads[q] for q in loc) + (rng.choice((2, 3)),)
+        elif malformed == 'radix-swap' and len(set(rads)) > 1:
+            # same total dimension, radixes in the wrong order: only the
+            # explicit radix check can reject this one
+            a = rng.randrange(n)
+            bq = rng.choice([q for q in range(n) if rads[q] != rads[a]])
+            loc, oprad = (a, bq), (rads[bq], rads[a])
         else:   # radix mismatch on one qudit of the location
+            malformed = 'radix'
             loc = tuple(rng.sample(range(n), rng.randint(1, min(2, n))))
             oprad = [rads[q] for q in loc]
             j = rng.randrange(len(loc))
@@ -418,8 +425,8 @@ def run_kron(ck, thorough):
         ck.bump('kron_dims', str(U.shape[0]))
         cases.append((line, canon_mono(got), canon_mono(U), ('build', key),
                       None))
-    for i in range(96 * scale):
-        kind = ('dup-loc', 'range-loc', 'size', 'radix')[i % 4]
+    for i in range(100 * scale):
+        kind = ('dup-loc', 'range-loc', 'size', 'radix', 'radix-swap')[i % 5]
         line, impl, orc, key = builder_case(True, kind)
         cases.append((line, impl, orc, ('build-bad', key),
                       'kron-apply-accepts-malformed-arguments'))
